@@ -32,6 +32,7 @@ type c03fParam struct {
 	Scn     string  `json:"scn"`
 	Files   [][]int `json:"files,omitempty"` // per file: sizes of its batches
 	Readers int     `json:"readers,omitempty"`
+	Arrival string  `json:"arrival,omitempty"` // files-reader: "" = each file delivers its batches in order, "reversed", "rotated" (numbered, out of order: what the parallel title-line parsers of the real readers do)
 	Parts   []int   `json:"parts,omitempty"` // dispatcher: sizes of the input batches
 	Batch   int     `json:"batch,omitempty"`
 	Mode    string  `json:"mode"`
@@ -41,11 +42,16 @@ type c03fParam struct {
 }
 
 func c03fFeed(prefix string, parts []int, keyOf func(k int) string) obiiter.IBioSequence {
+	return c03fFeedArrival(prefix, parts, keyOf, "")
+}
+
+func c03fFeedArrival(prefix string, parts []int, keyOf func(k int) string, arrival string) obiiter.IBioSequence {
 	it := obiiter.MakeIBioSequence()
 	it.Add(1)
 	vsched.Go(func() { it.WaitAndClose() })
 	vsched.Go(func() {
 		k := 0
+		batches := make([]obiiter.BioSequenceBatch, 0, len(parts))
 		for b, sz := range parts {
 			sl := obiseq.MakeBioSequenceSlice()
 			for i := 0; i < sz; i++ {
@@ -56,7 +62,20 @@ func c03fFeed(prefix string, parts []int, keyOf func(k int) string) obiiter.IBio
 				sl = append(sl, s)
 				k++
 			}
-			it.Push(obiiter.MakeBioSequenceBatch(prefix, b, sl))
+			batches = append(batches, obiiter.MakeBioSequenceBatch(prefix, b, sl))
+		}
+		switch arrival {
+		case "reversed":
+			for i, j := 0, len(batches)-1; i < j; i, j = i+1, j-1 {
+				batches[i], batches[j] = batches[j], batches[i]
+			}
+		case "rotated":
+			if len(batches) > 1 {
+				batches = append(batches[1:], batches[0])
+			}
+		}
+		for _, b := range batches {
+			it.Push(b)
 		}
 		it.Done()
 	})
@@ -73,7 +92,7 @@ func c03fBody(p c03fParam) string {
 		reader := func(name string, options ...WithOption) (obiiter.IBioSequence, error) {
 			var i int
 			fmt.Sscanf(name, "f%d", &i)
-			return c03fFeed(name+"_", p.Files[i], nil), nil
+			return c03fFeedArrival(name+"_", p.Files[i], nil, p.Arrival), nil
 		}
 		it := ReadSequencesBatchFromFiles(names, reader, p.Readers)
 		var lines []string
@@ -310,9 +329,22 @@ func TestVerifC03F(t *testing.T) {
 			fileSets = append(fileSets, [][]int{{1, 1}, {1, 1}, {1}}, [][]int{{3}, {1, 0, 1}})
 		}
 		for _, fs := range fileSets {
+			multi := false
+			for _, f := range fs {
+				if len(f) > 1 {
+					multi = true
+				}
+			}
 			for _, rd := range []int{1, 2} {
 				for pol := 0; pol <= 1; pol++ {
 					jobs = append(jobs, c03fParam{Scn: scn, Files: fs, Readers: rd, Mode: "delay", Bound: bound, Policy: pol})
+					if multi {
+						// the real readers number their batches and deliver them out of order
+						jobs = append(jobs, c03fParam{Scn: scn, Files: fs, Readers: rd, Arrival: "reversed", Mode: "delay", Bound: bound, Policy: pol})
+						if verifkit.Thorough() {
+							jobs = append(jobs, c03fParam{Scn: scn, Files: fs, Readers: rd, Arrival: "rotated", Mode: "delay", Bound: bound, Policy: pol})
+						}
+					}
 				}
 				if len(fs) <= 2 && verifkit.Thorough() {
 					jobs = append(jobs, c03fParam{Scn: scn, Files: fs, Readers: rd, Mode: "full"})
@@ -368,13 +400,16 @@ func TestVerifC03F(t *testing.T) {
 		for _, v := range st.Violations {
 			parts := strings.SplitN(v.Desc, "|", 2)
 			key := "obiformats/" + p.Scn + "/" + parts[0]
+			if p.Arrival != "" {
+				key += ":batches-of-a-file-arrive-out-of-order"
+			}
 			if seen[key] {
 				continue
 			}
 			seen[key] = true
 			q := p
 			q.Choices = v.Choices
-			r.Violate(key, fmt.Sprintf("%s files=%v readers=%d parts=%v batch=%d mode=%s policy=%d schedule=%v: %s", p.Scn, p.Files, p.Readers, p.Parts, p.Batch, p.Mode, p.Policy, v.Choices, parts[1]), q)
+			r.Violate(key, fmt.Sprintf("%s files=%v arrival=%q readers=%d parts=%v batch=%d mode=%s policy=%d schedule=%v: %s", p.Scn, p.Files, p.Arrival, p.Readers, p.Parts, p.Batch, p.Mode, p.Policy, v.Choices, parts[1]), q)
 		}
 	}
 	r.RequireNonVacuous("outcome_completed")
